@@ -36,6 +36,8 @@ type STgt struct {
 type SOp struct {
 	Kind    string `json:"kind"` // update | scrape | restart
 	Req     []STgt `json:"req,omitempty"`
+	// job keys that are present in the update request with an empty target list
+	EmptyJobs []int  `json:"emptyJobs,omitempty"`
 	Hash    uint64 `json:"h,omitempty"`
 	Ok      bool   `json:"ok,omitempty"`
 	Scraped int64  `json:"scraped,omitempty"`
@@ -181,8 +183,11 @@ func (r *sidecarRig) observe() (SObs, error) {
 	return o, nil
 }
 
-func (r *sidecarRig) update(req []STgt) error {
+func (r *sidecarRig) update(req []STgt, emptyJobs ...int) error {
 	body := shard.UpdateTargetsRequest{Targets: map[string][]*target.Target{}}
+	for _, j := range emptyJobs {
+		body.Targets[fmt.Sprintf("job%d", j)] = []*target.Target{}
+	}
 	for _, t := range req {
 		job := fmt.Sprintf("job%d", t.Job)
 		body.Targets[job] = append(body.Targets[job], &target.Target{
@@ -278,6 +283,18 @@ func genSidecarCase(r *Rng, long bool) *SCase {
 				}
 			}
 			last = op.Req
+			// a job may be listed without any target (the assignment is what counts, not the job keys)
+			if r.Chance(25) {
+				used := map[int]bool{}
+				for _, t := range op.Req {
+					used[t.Job] = true
+				}
+				for j := 0; j < 2; j++ {
+					if !used[j] && r.Chance(60) {
+						op.EmptyJobs = append(op.EmptyJobs, j)
+					}
+				}
+			}
 			c.Ops = append(c.Ops, op)
 		case k < 8:
 			op := SOp{Kind: "scrape", Hash: uint64(1 + r.Intn(univ)), Ok: r.Chance(75)}
@@ -329,7 +346,7 @@ func runSidecarCase(c *SCase, work string) (string, []SObs, error) {
 			for _, t := range op.Req {
 				jobOf[t.Hash] = t.Job
 			}
-			if err := rig.update(op.Req); err != nil {
+			if err := rig.update(op.Req, op.EmptyJobs...); err != nil {
 				return "", nil, err
 			}
 			w.add(0, int64(len(op.Req)))
